@@ -945,6 +945,12 @@ func (t *AwaitTxConfirmationAction) Execute(services *SwapServices, swap *SwapDa
 type ValidateTxAndPayClaimInvoiceAction struct{}
 
 func (p *ValidateTxAndPayClaimInvoiceAction) Execute(services *SwapServices, swap *SwapData) EventType {
+	// The claim invoice is already paid (the preimage was stored before a
+	// restart): never pay again and never fall into the failure path, which
+	// would disclose the swap key. Go on claiming the output.
+	if swap.ClaimPreimage != "" {
+		return Event_ActionSucceeded
+	}
 	lc := services.lightning
 	onchain, _, validator, err := services.getOnChainServices(swap.GetChain())
 	if err != nil {
